@@ -114,8 +114,26 @@ fn parse_ctx(t: &mut Toks) -> Option<Vec<u64>> {
         "A" => Some((0..17).map(|_| t.u64()).collect()),
         // x86 context (register_size 4): eip esp ebp ebx esi edi eax ecx edx eflags — T cases only
         "X" => Some((0..10).map(|_| t.u64()).collect()),
+        // arm64 context (33 registers x0..x28 fp lr sp pc) — T cases only
+        "R" => Some((0..33).map(|_| t.u64()).collect()),
+        // amd64 context in which only the registers of the bit mask are valid: 18 values = mask, then the 17 registers
+        "V" => Some((0..18).map(|_| t.u64()).collect()),
         x => panic!("ctx {}", x),
     }
+}
+
+const ARM64_REGS: [&str; 33] = [
+    "x0", "x1", "x2", "x3", "x4", "x5", "x6", "x7", "x8", "x9", "x10", "x11", "x12", "x13", "x14", "x15", "x16", "x17", "x18",
+    "x19", "x20", "x21", "x22", "x23", "x24", "x25", "x26", "x27", "x28", "fp", "lr", "sp", "pc",
+];
+
+fn arm64_ctx(vals: &[u64]) -> md::CONTEXT_ARM64 {
+    use minidump::CpuContext;
+    let mut c: md::CONTEXT_ARM64 = unsafe { std::mem::zeroed() };
+    for (i, r) in ARM64_REGS.iter().enumerate() {
+        c.set_register(r, vals[i]).unwrap();
+    }
+    c
 }
 
 const X86_REGS: [&str; 10] = ["eip", "esp", "ebp", "ebx", "esi", "edi", "eax", "ecx", "edx", "eflags"];
@@ -265,9 +283,16 @@ fn run(line: &str) -> String {
                 3 => MemoryOperation::Execute,
                 _ => MemoryOperation::Undetermined,
             };
-            let ctx = ctxv.map(|v| MinidumpContext {
-                raw: if v.len() == 10 { MinidumpRawContext::X86(x86_ctx(&v)) } else { MinidumpRawContext::Amd64(amd64_ctx(&v)) },
-                valid: MinidumpContextValidity::All,
+            let ctx = ctxv.map(|v| match v.len() {
+                10 => MinidumpContext { raw: MinidumpRawContext::X86(x86_ctx(&v)), valid: MinidumpContextValidity::All },
+                33 => MinidumpContext { raw: MinidumpRawContext::Arm64(arm64_ctx(&v)), valid: MinidumpContextValidity::All },
+                18 => MinidumpContext {
+                    raw: MinidumpRawContext::Amd64(amd64_ctx(&v[1..])),
+                    valid: MinidumpContextValidity::Some(
+                        AMD64_REGS.iter().enumerate().filter(|(i, _)| v[0] >> i & 1 == 1).map(|(_, r)| *r).collect(),
+                    ),
+                },
+                _ => MinidumpContext { raw: MinidumpRawContext::Amd64(amd64_ctx(&v)), valid: MinidumpContextValidity::All },
             });
             let info_bytes = meminfo_bytes(&regs);
             let maps = maps_text(&regs);
